@@ -8,6 +8,23 @@ ROOT = os.path.dirname(os.path.dirname(os.path.abspath(__file__)))
 
 # id -> (category, technique, level text, level note, design ref)
 CHECKS = {
+    'C18': ('exploration',
+            'Hypothesis-generated spellings: metamorphic sibling comparison '
+            '(parser objects and wire responses), parse/serialise/parse round '
+            'trips, independent modified-UTF-7 codec as oracle for names',
+            'For 21 command templates every legal spelling of each string '
+            'argument (atom/quoted/{n}/{n+}, random letter case of command and '
+            'keyword atoms) must parse to field-by-field equal command objects '
+            'and, against two identical fresh servers, give equal masked '
+            'responses and equal LIST/STATUS/LSUB dumps; ten parseable types '
+            'are round-tripped with a random suffix; every generated Unicode '
+            'mailbox name is created and read back from LIST and STATUS and '
+            'decoded with an independent RFC 3501 5.1.3 codec. Sampled.',
+            'Extra spacing is not generated (RFC 3501 allows none); '
+            'FetchAttribute is only checked for consuming exactly its own '
+            'bytes (its serialisation is the response form); dict backend for '
+            'the wire-level parts.',
+            'DESIGN.md section 3, C18'),
     'C01': ('exploration',
             'Hypothesis-generated multi-session command programs; shadow-client '
             'invariants + glass-box comparison with the server-side view + '
